@@ -4,10 +4,14 @@
    `ps` is the family of p-values in INPUT order; outputs are (pvalue_adj, alpha_adj, null_rejected) per input position.
    Proved here: flag = (p <= alpha_adj) for every procedure/correction; closed forms (running min / max of the
    corrected p-values in rank order); order preservation; rejected <-> pvalue_adj <= alpha for BH, BY,
-   Hochberg-Bonferroni and Holm-Bonferroni; range for BH/BY.  NOT proved (validated by the oracle only, see DESIGN.md):
-   the Sidak equivalence (needs monotonicity of real powers), permutation invariance, purity of _copy_results. *)
+   Hochberg-Bonferroni and Holm-Bonferroni; range for BH/BY; order independence - the adjusted p-value and the rejection
+   flag of a hypothesis depend only on its own p-value and the multiset of all p-values, ties included - for BH, BY,
+   Hochberg-Bonferroni and Holm-Bonferroni (proofs/C10_perm.v).  NOT proved (validated by the oracle only, see DESIGN.md):
+   the Sidak equivalence and order independence for Sidak (need monotonicity of real powers), purity of _copy_results;
+   alpha_adj is NOT order independent at ties (known finding). *)
 From Coq Require Import Reals List Arith Bool Lra Sorted.
-From TT Require Import lib.PreludeR lib.Loop genR.Multiplicity proofs.C10_loop proofs.C10_multiplicity.
+From Coq Require Import Permutation.
+From TT Require Import lib.PreludeR lib.Loop genR.Multiplicity proofs.C10_loop proofs.C10_multiplicity proofs.C10_perm.
 Import ListNotations.
 Local Open Scope R_scope.
 
@@ -93,6 +97,27 @@ Proof. exact (bh_range alpha madj p k). Qed.
 Example C10_nonvacuous : (1 < length [1 / 100; 4 / 100])%nat /\ 0 < 5 / 100 < 1 /\ 0 < INR 2.
 Proof. cbn. repeat split; try lra; auto. Qed.
 
+(* the outcome does not depend on the order of experiments / metrics: if the same multiset of p-values is presented in
+   another order, a hypothesis with p-value p gets the same adjusted p-value and the same decision (ties included) *)
+Theorem C10_bh_by_order_independent alpha madj ps ps' j j' p : 0 < alpha < 1 -> 0 < madj -> Permutation ps ps' -> 0 <= p ->
+  nth_error ps j = Some p -> nth_error ps' j' = Some p ->
+  let o := nth j (hochberg_stepup (benjamini_adjust (mk_benjamini alpha madj)) ps) dflt in
+  let o' := nth j' (hochberg_stepup (benjamini_adjust (mk_benjamini alpha madj)) ps') dflt in
+  fst (fst o) = fst (fst o') /\ snd o = snd o'.
+Proof. exact (bh_order_independent alpha madj ps ps' j j' p). Qed.
+Theorem C10_hochberg_bonferroni_order_independent alpha ps ps' j j' p : 0 < alpha < 1 -> Permutation ps ps' -> 0 <= p ->
+  nth_error ps j = Some p -> nth_error ps' j' = Some p ->
+  let o := nth j (hochberg_stepup (bonferroni_adjust (mk_bonferroni alpha (INR (length ps)))) ps) dflt in
+  let o' := nth j' (hochberg_stepup (bonferroni_adjust (mk_bonferroni alpha (INR (length ps')))) ps') dflt in
+  fst (fst o) = fst (fst o') /\ snd o = snd o'.
+Proof. exact (hochberg_bonferroni_order_independent alpha ps ps' j j' p). Qed.
+Theorem C10_holm_bonferroni_order_independent alpha ps ps' j j' p : 0 < alpha < 1 -> Permutation ps ps' -> 0 <= p ->
+  nth_error ps j = Some p -> nth_error ps' j' = Some p ->
+  let o := nth j (holm_stepdown (bonferroni_adjust (mk_bonferroni alpha (INR (length ps)))) ps) dflt in
+  let o' := nth j' (holm_stepdown (bonferroni_adjust (mk_bonferroni alpha (INR (length ps')))) ps') dflt in
+  fst (fst o) = fst (fst o') /\ snd o = snd o'.
+Proof. exact (holm_bonferroni_order_independent alpha ps ps' j j' p). Qed.
+
 Print Assumptions C10_stepup_flag.
 Print Assumptions C10_stepdown_flag.
 Print Assumptions C10_stepup_processes_sorted_family.
@@ -109,3 +134,6 @@ Print Assumptions C10_holm_bonferroni_rejected_iff_padj.
 Print Assumptions C10_benjamini_correction.
 Print Assumptions C10_bonferroni_correction.
 Print Assumptions C10_benjamini_range.
+Print Assumptions C10_bh_by_order_independent.
+Print Assumptions C10_hochberg_bonferroni_order_independent.
+Print Assumptions C10_holm_bonferroni_order_independent.
